@@ -216,7 +216,7 @@ func (c *Check) Violate(kase any, f *Failure) {
 		return
 	}
 	c.violations[f.Key] = f
-	if len(c.violations) > 25 {
+	if len(c.violations) > maxPrinted() {
 		return // counted, not printed
 	}
 	path := c.writeReplay(kase, f)
@@ -390,3 +390,10 @@ func (c *Check) DropHist(prefix string) {
 
 // DeadlineTime returns the internal deadline (worker processes derive it from the parent's start).
 func (c *Check) DeadlineTime() time.Time { return c.deadline }
+
+func maxPrinted() int {
+	if v, err := strconv.Atoi(os.Getenv("VERIF_MAXPRINT")); err == nil && v > 0 {
+		return v
+	}
+	return 25
+}
